@@ -361,19 +361,23 @@ func ValidateOn(s *njs.Schema, doc string) Obs {
 	return Safe(func() error { return s.Validate(json.New("doc", doc)) })
 }
 
-// ValidateOnChecked: Check(), Len() or both are called on the Document object before it is
-// validated (which of the three is a function of the text length).
+// ValidateOnChecked: the Document object has a history before it is validated - Check(), Len(),
+// both, or a validation against another schema that it does not fit ("which of my schemas
+// accepts this document?"); which one is a function of the text length.
 func ValidateOnChecked(s *njs.Schema, doc string) Obs {
 	return Safe(func() error {
 		d := json.New("doc", doc)
-		switch len(doc) / 8 % 3 {
+		switch len(doc) / 8 % 4 {
 		case 0:
 			_ = d.Check()
 		case 1:
 			_, _ = d.Len()
-		default:
+		case 2:
 			_ = d.Check()
 			_, _ = d.Len()
+		default:
+			other := njs.New("other", []string{"{\n  \"zz_other\": 1\n}", "[\n  {\n    \"zz_other\": true\n  }\n]", "[\n  1,\n  \"s\"\n]"}[len(doc)%3])
+			Safe(func() error { return other.Validate(d) })
 		}
 		return s.Validate(d)
 	})
